@@ -96,6 +96,9 @@ def obligations(ctx, m):
         k = E.pc_kind(r.pc)
         uses_t = any(T.contains(b, lambda t: t[0] == 'app' and t[1] == 'Tq') for b in bounds)
         uses_z = any(T.contains(b, lambda t: t[0] == 'app' and t[1] == 'Zq') for b in bounds)
+        from props.common_m import oracle_guard
+        if not oracle_guard(ctx, m, 'C01:ci_mean', r.pc, bounds):
+            continue
         tag = 'kind%s:%s' % (k, 'T' if uses_t else 'Z')
         seen_ok.add((k, uses_t))
         # (4) kind -> shape
